@@ -133,13 +133,14 @@ Definition oabs (y : option Q) : Q := match y with Some v => Qabs v | None => 0 
 
 (* both columns from one search: ((f1, f2), (scale1, scale2)); L is [locate] or [locate_fast] *)
 Definition locator := xtable -> Q -> loc (option Q * Q).
-Definition sfs (L : locator) (t : xtable) (x : Q) : (option Q * option Q) * (Q * Q) :=
-  match L t x with
+Definition sfs_loc (l : loc (option Q * Q)) (x : Q) : (option Q * option Q) * (Q * Q) :=
+  match l with
   | LOut => ((None, None), (0, 0))
   | LNode (y1, y2) => ((y1, Some y2), (oabs y1, Qabs y2))
   | LSeg xj (a1, a2) xk (b1, b2) =>
       ((lin xj a1 xk b1 x, lin xj (Some a2) xk (Some b2) x), (oabs a1 + oabs b1, Qabs a2 + Qabs b2))
   end.
+Definition sfs (L : locator) (t : xtable) (x : Q) : (option Q * option Q) * (Q * Q) := sfs_loc (L t x) x.
 Definition at_node (L : locator) (t : xtable) (x : Q) : bool :=
   match L t x with LNode _ => true | _ => false end.
 
